@@ -549,6 +549,54 @@ def run(ctx):
     from . import c05 as _c05
     _c05.error_text_indexing(ctx, 'R06l', repo)
 
+    # ---- R06m: optional fields of error objects
+    ctx.rule('R06m', 'a field of the error classes that __init__ copies from a parameter defaulting to None '
+                     '(error_type_info, recovery_*) and that no other class defines is dereferenced only where a '
+                     'non-None fact on it holds: errors raised without that information are recovered like the others', 0)
+    from .. import grules as _gr
+    exm = repo.mod('pylatexenc.latexnodes._exctypes')
+    nullable = set()
+    for q_, f_ in exm.functions.items():
+        if q_.endswith('.__init__'):
+            dfl = dict(zip([a_.arg for a_ in f_.args.args][len(f_.args.args) - len(f_.args.defaults):], f_.args.defaults))
+            for st_ in iter_own(f_):
+                if isinstance(st_, ast.Assign) and len(st_.targets) == 1 and is_self_attr(st_.targets[0]) and \
+                        isinstance(st_.value, ast.Name) and st_.value.id in dfl and \
+                        isinstance(dfl[st_.value.id], ast.Constant) and dfl[st_.value.id].value is None:
+                    nullable.add(st_.targets[0].attr)
+    # only fields that belong to the error classes alone
+    for mod_ in repo.modules.values():
+        if mod_ is exm:
+            continue
+        for n_ in ast.walk(mod_.tree):
+            if isinstance(n_, ast.Attribute) and isinstance(n_.ctx, ast.Store) and isinstance(n_.value, ast.Name) and \
+                    n_.value.id == 'self':
+                nullable.discard(n_.attr)
+    ctx.analysed['nullable_error_fields'] = sorted(nullable)
+    n_nf = 0
+    for mod_, q_, f_ in repo.all_functions():
+        for x_ in iter_own(f_):
+            base_ = None
+            if isinstance(x_, ast.Attribute) and isinstance(x_.value, ast.Attribute) and x_.value.attr in nullable:
+                base_ = x_.value
+            if isinstance(x_, ast.Subscript) and isinstance(x_.ctx, ast.Load) and isinstance(x_.value, ast.Attribute) \
+                    and x_.value.attr in nullable:
+                base_ = x_.value
+            if base_ is None:
+                continue
+            n_nf += 1
+            bt_ = unparse(base_)
+            facts_ = [(unparse(t_), p_) for t_, p_ in atomic_facts(x_)] + \
+                     [(unparse(t_), p_) for t_, p_ in _gr.short_circuit_facts(x_)]
+            ok_ = any((t_ == bt_ + ' is not None' and p_) or (t_ == bt_ + ' is None' and not p_) or (t_ == bt_ and p_)
+                      for t_, p_ in facts_)
+            ctx.decide('R06m', ok_, mod_, enclosing_stmt(x_) or x_, '%s: %s read under a non-None fact' % (q_, short(x_, 40)),
+                       '%s reads %s although %s is None for errors raised without it (an unterminated verbatim '
+                       'environment, a dangling \\verb): AttributeError -- in tolerant mode the exception escapes instead '
+                       'of the error being recovered' % (q_, short(x_, 50), bt_), construct='%s: %s' % (q_, short(x_, 40)))
+    ctx.holds('R06m', exm, None, '%d dereference(s) of nullable error-only fields %s examined' % (n_nf, sorted(nullable)),
+              construct='nullable error field scan', trivial=True)
+
     return 'other', (
         'Exception-escape analysis in the tolerant configuration (the tolerance check and the '
         'parse_content context manager suppress the parse-error family), the recovery hand-over '
